@@ -55,6 +55,7 @@ import (
 	"github.com/spiffe/go-spiffe/v2/svid/x509svid"
 	"github.com/spiffe/go-spiffe/v2/workloadapi"
 	api_v1 "k8s.io/api/core/v1"
+	discovery_v1 "k8s.io/api/discovery/v1"
 	networking "k8s.io/api/networking/v1"
 	meta_v1 "k8s.io/apimachinery/pkg/apis/meta/v1"
 	"k8s.io/apimachinery/pkg/types"
@@ -369,6 +370,7 @@ func run(repo string, c *Case, iter int) {
 		LoggerContext: ctx, Namespace: []string{""}, SecretNamespace: []string{""}, NginxConfigurator: cnf,
 		IsNginxPlus: true, IngressClass: class, ControllerNamespace: ctrlNS, Pod: pod,
 		ReportIngressStatus: true, IsLeaderElectionEnabled: true, LeaderElectionLockName: "verif-leader",
+		ExternalServiceName: "nginx-ingress",
 		AreCustomResourcesEnabled: true,
 		MetricsCollector:             collectors.NewControllerFakeCollector(),
 		GlobalConfigurationValidator: validation.NewGlobalConfigurationValidator(map[int]bool{}),
@@ -380,6 +382,19 @@ func run(repo string, c *Case, iter int) {
 
 	certPEM, keyPEM := makeCert()
 	d := &driver{ctx: ctx, kube: kube, conf: conf, rng: rng, c: c, cert: certPEM, key: keyPEM, lbc: lbc, nsB: true}
+	// the controller's own namespace is watched too: the EndpointSlices of its external service tell the worker
+	// how many replicas there are (Configurator.ingressControllerReplicas); the controller Pod has no owner
+	// reference here, so telemetry cannot ask a ReplicaSet / DaemonSet for that number
+	d.nsCreate(ctrlNS)
+	kube.CoreV1().Services(ctrlNS).Create(ctx, &api_v1.Service{ObjectMeta: meta_v1.ObjectMeta{Name: "nginx-ingress", Namespace: ctrlNS},
+		Spec: api_v1.ServiceSpec{Ports: []api_v1.ServicePort{{Port: 80}}}}, meta_v1.CreateOptions{})
+	d.epsUpdate()
+	// ns-b comes and goes (its label is given and taken at run time); it holds nothing but two supported
+	// Secrets, which the controller has to take into its store whenever the namespace becomes watched
+	for i := 0; i < 2; i++ {
+		kube.CoreV1().Secrets("ns-b").Create(ctx, &api_v1.Secret{ObjectMeta: meta_v1.ObjectMeta{Name: fmt.Sprintf("tls-b%d", i), Namespace: "ns-b"},
+			Type: api_v1.SecretTypeTLS, Data: map[string][]byte{"tls.crt": certPEM, "tls.key": keyPEM}}, meta_v1.CreateOptions{})
+	}
 	for _, ns := range namespaces {
 		d.nsCreate(ns)
 		if ns == "ns-b" {
@@ -723,6 +738,24 @@ func (d *driver) policyUpsert(ns string, i int) {
 	}
 }
 
+// the EndpointSlice of the controller's own external service with a varying number of ready endpoints
+func (d *driver) epsUpdate() {
+	d.op("controller-endpointslice")
+	ready := true
+	n := 1 + d.rng.Intn(4)
+	var eps []discovery_v1.Endpoint
+	for i := 0; i < n; i++ {
+		eps = append(eps, discovery_v1.Endpoint{Addresses: []string{fmt.Sprintf("10.0.0.%d", i+1)}, Conditions: discovery_v1.EndpointConditions{Ready: &ready}})
+	}
+	port := int32(80)
+	es := &discovery_v1.EndpointSlice{ObjectMeta: d.meta("eps", ctrlNS, "nginx-ingress-abc", nil), AddressType: discovery_v1.AddressTypeIPv4,
+		Endpoints: eps, Ports: []discovery_v1.EndpointPort{{Port: &port}}}
+	es.Labels = map[string]string{"kubernetes.io/service-name": "nginx-ingress"}
+	if _, err := d.kube.DiscoveryV1().EndpointSlices(ctrlNS).Update(d.ctx, es, meta_v1.UpdateOptions{}); err != nil {
+		d.kube.DiscoveryV1().EndpointSlices(ctrlNS).Create(d.ctx, es, meta_v1.CreateOptions{})
+	}
+}
+
 func (d *driver) configMap() {
 	d.op("configmap-update")
 	d.lbc.AddSyncQueue(&api_v1.ConfigMap{ObjectMeta: meta_v1.ObjectMeta{Name: "nginx-config", Namespace: ctrlNS},
@@ -774,7 +807,11 @@ func (d *driver) step() {
 			d.secretDelete(ns, d.rng.Intn(2))
 		}
 	case 17:
-		d.configMap()
+		if d.rng.Bool() {
+			d.configMap()
+		} else {
+			d.epsUpdate()
+		}
 	case 18:
 		if d.nsB {
 			d.nsDelete("ns-b")
